@@ -281,9 +281,12 @@ class Executor(ResolutionContext):
         info: ResolveInfo,
         resolved_value: Any,
     ) -> Any:
+        # Read the whole iterable first: if producing the entries fails, this
+        # happens before any of them has started to resolve its own fields.
+        entries = list(resolved_value)
         return self.runtime.gather_values(
             self.complete_value(inner_type, nodes, path + [index], info, entry)
-            for index, entry in enumerate(resolved_value)
+            for index, entry in enumerate(entries)
         )
 
     def complete_non_nullable_value(
